@@ -286,6 +286,32 @@ def judge_prefix(s, J, table, keys):
     reference objective by the per-result oracle)."""
     out = []
     sig0 = (s.solver_name, s.dname, s.pname)
+    if s.solver_name == "FISTA":
+        # FISTA has no kernel seam to count iterations at, but the crash points themselves
+        # count them: a run that stopped on its tolerance under budget K returns bit for bit
+        # what the run with budget k returns for every k from the number of iterations it
+        # performed on; the smallest such budget of the grid (provided budget k - 1 is in the
+        # grid too and returns something else) is a lower bound of that number, and of the
+        # length of its history.
+        ms = sorted(m for (m, _) in keys)
+        for K in ms:
+            rK = table[(K, 0)] if (K, 0) in table else None
+            if rK is None or not rK.get("claimed") or rK.get("w") is None:
+                continue
+            same = [m for m in ms if m <= K and table[(m, 0)].get("w") is not None
+                    and np.array_equal(table[(m, 0)]["w"], rK["w"])]
+            if not same:
+                continue
+            k = min(same)
+            # (at least k iterations were performed - more if the iterate repeated itself while
+            # the criterion, evaluated at the extrapolated point, was still above tol - so a
+            # history shorter than k has lost entries)
+            if k >= 1 and (k - 1) in ms and (k - 1) not in same and len(rK["obj_out"]) < k:
+                out.append(dict(prop=["C17"], oracle="history_length",
+                                sig=sig0 + ("history_length",),
+                                detail=dict(len=len(rK["obj_out"]), performed=int(k), max_iter=int(K)),
+                                feat=J.feat(rK, dict(len=len(rK["obj_out"]), performed=int(k)))))
+                break
     es = sorted({e for (_, e) in keys})
     for e in es:
         ms = sorted(m for (m, ee) in keys if ee == e)
